@@ -32,7 +32,7 @@ INLINE = {}             # unit-local static helpers of mem.c whose paths are spl
 
 def epaths(fn):
     """paths of a wrapper with its static helpers spliced in and flag locals / compound tests split into atomic tests"""
-    return paths.enumerate_paths(fn, noreturn={"libast_fatal_error"}, inline=INLINE, expand=True)
+    return paths.enumerate_paths(fn, noreturn={"libast_fatal_error"}, inline=INLINE, expand=True, decls=True)
 
 
 GATE_HELPERS = {}       # predicate helpers that answer the runtime gate: name -> (level, polarity); filled by find_gate_helpers()
@@ -161,12 +161,63 @@ def path_summary(fn, p, mem_level):
     return gate, calls, tests, ret, unknown
 
 
-def arg_is(fn, call, idx, what):
+def resolve_on_path(path, call, e, depth=0):
+    """the expression a local / a field of a struct local stands for at `call`, following the assignments made along this path
+    before the call (site.filename = filename; ...; helper(&site): site->filename is the wrapper's parameter)"""
+    s = X.strip(e)
+    if path is None or s is None or depth > 5:
+        return e
+    locals_, fields_ = {}, {}
+    for ev in path:
+        if ev[0] == "call" and ev[2] is call:
+            break
+        if ev[0] == "assign" and ev[2].get("op") == "=":
+            l = X.strip(ev[2]["ch"][0])
+            if l is None:
+                continue
+            if l.get("k") == "ref" and l.get("rk") == "local":
+                locals_[l["d"]] = ev[2]["ch"][1]
+            elif l.get("k") == "member":
+                b = X.strip(l["ch"][0])
+                if b is not None and not l.get("arrow") and b.get("k") == "ref" and b.get("rk") == "local":
+                    fields_[(b["d"], l["n"])] = ev[2]["ch"][1]
+    if s.get("k") == "ref" and s.get("rk") == "local" and s["d"] in locals_:
+        r = locals_[s["d"]]
+        if not any(y.get("k") == "ref" and y.get("d") == s["d"] for y in walk(r)):
+            return resolve_on_path(path, call, r, depth + 1)
+    if s.get("k") == "member":
+        b = X.strip(s["ch"][0])
+        key = None
+        if b is not None and s.get("arrow") and b.get("k") == "un" and b.get("op") == "&":
+            t = X.strip(b["ch"][0])
+            if t is not None and t.get("k") == "ref" and t.get("rk") == "local":
+                key = (t["d"], s["n"])
+        elif b is not None and not s.get("arrow") and b.get("k") == "ref" and b.get("rk") == "local":
+            key = (b["d"], s["n"])
+        if key in fields_:
+            return resolve_on_path(path, call, fields_[key], depth + 1)
+    if s.get("k") == "cond":
+        # NONULL(x) = (x) ? x : "<null>": resolve the value arm
+        return e
+    return e
+
+
+def arg_is(fn, call, idx, what, path=None):
     """what: ('param', i) | ('local', declid) | ('addr_global', name)"""
     args = call["ch"][1:]
     if idx >= len(args):
         return False
     s = X.strip(args[idx])
+    if path is not None and what[0] == "param":
+        s0 = s
+        if s0 is not None and s0.get("k") == "cond":
+            s0 = X.strip(s0["ch"][1])            # NONULL(filename) = (filename) ? filename : "<null>"
+        r_ = X.strip(resolve_on_path(path, call, s0))
+        if r_ is not None and r_ is not s0:
+            if r_.get("k") == "cond":
+                r_ = X.strip(r_["ch"][1])
+            if r_.get("k") == "ref" and r_.get("rk") == "param" and r_.get("pi") == what[1] and (r_.get("d") in {p_["d"] for p_ in fn.params}):
+                return True
     if what[0] == "param" and s is not None and s.get("k") == "ref" and s.get("rk") == "local":
         # a local written exactly once (where = NONULL(filename)): its defining expression
         defs = []
@@ -277,8 +328,8 @@ def check_alloc_wrapper(chk, prog, fn, allocator, edit, mem_level, size_desc, pi
                 order_ok = names.index(allocator) < names.index(edit)
                 ptr_ok = (rl is not None and arg_is(fn, e, 3, ("local", rl))) or arg_is_returned_value(p, e, 3, ret)
                 tab_ok = arg_is(fn, e, 0, ("addr_global", "malloc_rec"))
-                file_ok = arg_is(fn, e, 1, ("param", pidx["file"]))
-                line_ok = arg_is(fn, e, 2, ("param", pidx["line"]))
+                file_ok = arg_is(fn, e, 1, ("param", pidx["file"]), path=p)
+                line_ok = arg_is(fn, e, 2, ("param", pidx["line"]), path=p)
                 size_ok = size_matches(fn, e["ch"][1:][4], acall, size_desc)
                 ok = order_ok and ptr_ok and tab_ok and file_ok and line_ok and size_ok
                 why = "the %s call does not record the wrapper's own block: %s" % (edit, ", ".join(
@@ -350,7 +401,7 @@ def check_free(chk, prog, fn, mem_level):
         why = "the block is not freed exactly once"
         if ok:
             if gate:
-                ok = len(rem) == 1 and arg_is(fn, rem[0][1], 4, ("param", 3)) and arg_is(fn, rem[0][1], 0, ("addr_global", "malloc_rec")) \
+                ok = len(rem) == 1 and arg_is(fn, rem[0][1], 4, ("param", 3), path=p) and arg_is(fn, rem[0][1], 0, ("addr_global", "malloc_rec")) \
                     and names.index("memrec_rem_var") < names.index("free")
                 why = "at runtime level >= %d the record must be removed (for this pointer, from the malloc table) before the block is freed" % mem_level
             else:
@@ -493,8 +544,8 @@ def run(tier="quick", mktable=False):
                 e = edits[0][1]
                 rc = [c for c in calls if c[0] == "realloc"][0][1]
                 conds = (("not the malloc table", arg_is(f, e, 0, ("addr_global", "malloc_rec"))),
-                         ("file", arg_is(f, e, 2, ("param", 1))), ("line", arg_is(f, e, 3, ("param", 2))),
-                         ("old pointer", arg_is(f, e, 4, ("param", 3))), ("new pointer is not the returned block", (rl is not None and arg_is(f, e, 5, ("local", rl))) or arg_is_returned_value(p, e, 5, ret)),
+                         ("file", arg_is(f, e, 2, ("param", 1), path=p)), ("line", arg_is(f, e, 3, ("param", 2), path=p)),
+                         ("old pointer", arg_is(f, e, 4, ("param", 3), path=p)), ("new pointer is not the returned block", (rl is not None and arg_is(f, e, 5, ("local", rl))) or arg_is_returned_value(p, e, 5, ret)),
                          ("size", canon(f, e["ch"][1:][6]) == canon(f, rc["ch"][1:][1])),
                          ("edited before reallocating", names.index("realloc") < names.index("memrec_chg_var")))
                 ok = all(o for _, o in conds)
@@ -659,8 +710,31 @@ def run(tier="quick", mktable=False):
                         lhs, rhs = {"k": "ref", "d": dcl["d"], "rk": "local"}, dcl["init"]
             if rhs is not None and X.strip(rhs).get("k") == "call" and X.callee_name(X.strip(rhs)) == "memrec_find_var" and lhs.get("k") == "ref":
                 finds.append(lhs["d"])
-        decs = [x for x in walk(fn.body) if (x.get("k") == "un" and x.get("op") == "--" or (x.get("k") == "assign" and x.get("op") == "-=")) and
+        decs = [x for x in walk(fn.body) if (x.get("k") == "un" and x.get("op") == "--" or (x.get("k") == "assign" and x.get("op") in ("-=", "="))) and
                 X.strip(x["ch"][0]).get("k") == "member" and X.strip(x["ch"][0]).get("n") == "cnt"]
+        slot_is_param = False
+        if not finds and decs and fn.static and any(X.callee_name(c_) in ("memmove", "memcpy") for c_ in X.calls_in(fn.body)):
+            # the removal proper moved into a helper that is handed the slot: the slot is the record-pointer parameter, and every
+            # caller hands it what memrec_find_var answered
+            cands_ = [p_ for p_ in fn.params[1:] if p_.get("tp") and re.search(r"spifmem_ptr_t", (p_.get("tc") or "") + (p_.get("t") or ""))]
+            if len(cands_) == 1:
+                pj_ = [i_ for i_, p_ in enumerate(fn.params) if p_ is cands_[0]][0]
+                ok_callers = True
+                ncall_ = 0
+                for g_ in u.functions.values():
+                    if g_.body is None:
+                        continue
+                    for c_ in X.calls_in(g_.body):
+                        if X.callee_name(c_) == fn.name:
+                            ncall_ += 1
+                            a_ = X.strip(c_["ch"][1:][pj_]) if pj_ < len(c_["ch"][1:]) else None
+                            if a_ is None or a_.get("k") != "ref" or not any(
+                                    (X.strip(y_["ch"][0]) or {}).get("d") == a_.get("d") and any(X.callee_name(c2_) == "memrec_find_var" for c2_ in X.calls_in(y_["ch"][1]))
+                                    for y_ in walk(g_.body) if y_.get("k") == "assign" and y_.get("op") == "="):
+                                ok_callers = False
+                if ok_callers and ncall_:
+                    finds.append(cands_[0]["d"])
+                    slot_is_param = True
         if not finds or not decs or not fn.params:
             continue
         n9 += 1
@@ -761,7 +835,10 @@ def run(tier="quick", mktable=False):
                     return None if r_ is None else self._add(cons, r_)
                 return GhostPos.refine(self, cons, cond, truth, blk)
         g9 = RecPos(fn, prog, self_index=None)
-        g9.run([Lin.sym("cnt"), Lin.sym("removed"), Lin.const(0) - Lin.sym("removed")])
+        init9 = [Lin.sym("cnt"), Lin.sym("removed"), Lin.const(0) - Lin.sym("removed")]
+        if slot_is_param:
+            init9 += [Lin.sym("idx"), Lin.sym("cnt") - 1 - Lin.sym("idx"), Lin.sym("found") - 1]
+        g9.run(init9)
         ends = []
 
         def v9(st, x, blk):
@@ -832,7 +909,7 @@ def run(tier="quick", mktable=False):
                    and X.strip(x["ch"][0]).get("n") == "cnt" and (x.get("k") == "assign" or x.get("op") in ("++", "--"))]
         stores_rec = any(x.get("k") == "assign" and (X.strip(x["ch"][0]) or {}).get("k") == "member" and X.strip(x["ch"][0]).get("n") in ("ptr", "size", "line")
                          for x in walk(fn.body))
-        if not touches or not stores_rec or not any(x.get("op") in ("++", "+=", "=") for x in touches) or any(x.get("op") in ("--", "-=") for x in touches):
+        if not touches:
             continue
         rec_ = prog.records.get((X.strip(touches[0]["ch"][0]).get("rec") or ""))
         extra_int = [fl["n"] for fl in (rec_ or {}).get("fields", []) if fl["n"] not in ("cnt", "ptrs") and not fl.get("tp") and fl.get("tw")]
